@@ -163,8 +163,12 @@ impl V {
         self.signed && self.msb() == One
     }
 
-    // ------------------------------------------------------------------ bit-serial arithmetic
-    fn add_raw(a: &[Bit], b: &[Bit], mut carry: bool) -> Vec<Bit> {
+    // ------------------------------------------------------------------ arithmetic on known vectors
+    // Two implementations of each primitive: `*_serial` is the bit-by-bit definition (ripple
+    // carry, shift-and-add, restoring division); `*_raw` packs the bits into 64-bit limbs and does
+    // schoolbook arithmetic on them (the operators use these: the serial forms cost O(w^2)
+    // allocations at 300 bits). The unit tests check that both agree.
+    fn add_serial(a: &[Bit], b: &[Bit], mut carry: bool) -> Vec<Bit> {
         let mut out = Vec::with_capacity(a.len());
         for i in 0..a.len() {
             let x = a[i] == One;
@@ -175,12 +179,12 @@ impl V {
         }
         out
     }
-    fn neg_raw(a: &[Bit]) -> Vec<Bit> {
+    fn neg_serial(a: &[Bit]) -> Vec<Bit> {
         let inv: Vec<Bit> = a.iter().map(|b| b.not()).collect();
         let zero = vec![Zero; a.len()];
-        V::add_raw(&inv, &zero, true)
+        V::add_serial(&inv, &zero, true)
     }
-    fn mul_raw(a: &[Bit], b: &[Bit]) -> Vec<Bit> {
+    fn mul_serial(a: &[Bit], b: &[Bit]) -> Vec<Bit> {
         let w = a.len();
         let mut acc = vec![Zero; w];
         for i in 0..w {
@@ -189,7 +193,7 @@ impl V {
                 for j in i..w {
                     sh[j] = a[j - i];
                 }
-                acc = V::add_raw(&acc, &sh, false);
+                acc = V::add_serial(&acc, &sh, false);
             }
         }
         acc
@@ -203,7 +207,7 @@ impl V {
         true
     }
     /// unsigned restoring division: (quotient, remainder)
-    fn divmod_raw(a: &[Bit], b: &[Bit]) -> (Vec<Bit>, Vec<Bit>) {
+    fn divmod_serial(a: &[Bit], b: &[Bit]) -> (Vec<Bit>, Vec<Bit>) {
         let w = a.len();
         let mut q = vec![Zero; w];
         let mut r = vec![Zero; w + 1];
@@ -216,13 +220,98 @@ impl V {
             }
             r[0] = a[i];
             if V::ge_raw(&r, &bb) {
-                let nb = V::neg_raw(&bb);
-                r = V::add_raw(&r, &nb, false);
+                let nb = V::neg_serial(&bb);
+                r = V::add_serial(&r, &nb, false);
                 q[i] = One;
             }
         }
         r.truncate(w);
         (q, r)
+    }
+
+    // limbs, least significant first; bits above `w` are kept zero
+    fn to_limbs(a: &[Bit]) -> Vec<u64> {
+        let mut out = vec![0u64; a.len().div_ceil(64).max(1)];
+        for (i, b) in a.iter().enumerate() {
+            if *b == One {
+                out[i / 64] |= 1u64 << (i % 64);
+            }
+        }
+        out
+    }
+    fn from_limbs(l: &[u64], w: usize) -> Vec<Bit> {
+        (0..w).map(|i| Bit::from_bool((l[i / 64] >> (i % 64)) & 1 == 1)).collect()
+    }
+    fn limbs_add(a: &[u64], b: &[u64], carry_in: bool) -> Vec<u64> {
+        let mut out = Vec::with_capacity(a.len());
+        let mut carry = carry_in as u128;
+        for i in 0..a.len() {
+            let s = a[i] as u128 + b[i] as u128 + carry;
+            out.push(s as u64);
+            carry = s >> 64;
+        }
+        out
+    }
+    fn limbs_ge(a: &[u64], b: &[u64]) -> bool {
+        for i in (0..a.len()).rev() {
+            if a[i] != b[i] {
+                return a[i] > b[i];
+            }
+        }
+        true
+    }
+    fn add_raw(a: &[Bit], b: &[Bit], carry: bool) -> Vec<Bit> {
+        let r = V::limbs_add(&V::to_limbs(a), &V::to_limbs(b), carry);
+        V::from_limbs(&r, a.len())
+    }
+    fn neg_raw(a: &[Bit]) -> Vec<Bit> {
+        let inv: Vec<Bit> = a.iter().map(|b| b.not()).collect();
+        let zero = vec![Zero; a.len()];
+        V::add_raw(&inv, &zero, true)
+    }
+    /// product modulo 2^w (schoolbook on limbs)
+    fn mul_raw(a: &[Bit], b: &[Bit]) -> Vec<Bit> {
+        let x = V::to_limbs(a);
+        let y = V::to_limbs(b);
+        let n = x.len();
+        let mut out = vec![0u64; n];
+        for i in 0..n {
+            let mut carry = 0u128;
+            for j in 0..n - i {
+                let t = x[i] as u128 * y[j] as u128 + out[i + j] as u128 + carry;
+                out[i + j] = t as u64;
+                carry = t >> 64;
+            }
+        }
+        V::from_limbs(&out, a.len())
+    }
+    /// unsigned restoring division on limbs: (quotient, remainder)
+    fn divmod_raw(a: &[Bit], b: &[Bit]) -> (Vec<Bit>, Vec<Bit>) {
+        let w = a.len();
+        // one spare bit for the shifted remainder
+        let n = (w + 1).div_ceil(64).max(1);
+        let mut d = V::to_limbs(b);
+        d.resize(n, 0);
+        // two's complement of the divisor, for the subtraction
+        let inv: Vec<u64> = d.iter().map(|x| !x).collect();
+        let zero = vec![0u64; n];
+        let neg_d = V::limbs_add(&inv, &zero, true);
+        let mut q = vec![0u64; n];
+        let mut r = vec![0u64; n];
+        for i in (0..w).rev() {
+            // r = (r << 1) | a[i]
+            let mut carry = (a[i] == One) as u64;
+            for limb in r.iter_mut() {
+                let next = *limb >> 63;
+                *limb = (*limb << 1) | carry;
+                carry = next;
+            }
+            if V::limbs_ge(&r, &d) {
+                r = V::limbs_add(&r, &neg_d, false);
+                q[i / 64] |= 1u64 << (i % 64);
+            }
+        }
+        (V::from_limbs(&q, w), V::from_limbs(&r, w))
     }
 
     /// Brings both operands to the common width/signedness of a context-determined binary
@@ -286,16 +375,17 @@ impl V {
     /// 11.4.3 power. The right operand is self-determined; the result has the type of the left
     /// operand extended to the context.
     pub fn pow(a: &V, b: &V, ctx: usize) -> V {
-        // result type: width = max(wa, ctx); signedness: of the expression = both signed (11.8.1
-        // lists ** among the operators whose result depends on both operands)
-        let s = a.signed && b.signed;
+        // result type: width = max(wa, ctx) (Table 11-21: `i ** j` has L(i), j is
+        // self-determined). Signedness: 11.8.1 derives the type from the *non-self-determined*
+        // operands only, so it is that of the left operand (as for the shifts); the exponent is
+        // interpreted by its own type.
+        let s = a.signed;
         let w = a.width().max(ctx);
-        let a2 = a.with_sign(s).resize(w);
+        let a2 = a.resize(w);
         if !a2.known() || !b.known() {
             return V::all(w, X, s);
         }
-        let b_neg = b.signed && s && b.msb() == One;
-        let b_neg = b_neg || (b.signed && a.signed && b.msb() == One);
+        let b_neg = b.signed && b.msb() == One;
         let a_is_zero = a2.is_zero();
         let one = V::from_u128(1, w, s);
         let a_is_one = a2.bits == one.bits;
@@ -320,11 +410,14 @@ impl V {
         // positive exponent: square and multiply modulo 2^w
         let mut result = one.bits.clone();
         let mut base = a2.bits.clone();
-        for i in 0..b.width() {
+        let top = b.bits.iter().rposition(|x| *x == One).unwrap_or(0);
+        for i in 0..=top {
             if b.bits[i] == One {
                 result = V::mul_raw(&result, &base);
             }
-            base = V::mul_raw(&base, &base);
+            if i < top {
+                base = V::mul_raw(&base, &base);
+            }
         }
         V::new(result, s)
     }
@@ -614,6 +707,41 @@ mod tests {
         assert_eq!(V::add(&s(-1, 4), &u(1, 8), 0).to_u128(), Some(16));
         assert_eq!(V::pow(&u(3, 4), &u(2, 4), 0).to_u128(), Some(9));
         assert_eq!(V::pow(&u(3, 4), &u(3, 4), 0).to_u128(), Some(27 & 15));
+    }
+    #[test]
+    fn limbs_agree_with_serial() {
+        // deterministic pseudo-random patterns (no external crate): xorshift
+        let mut st = 0x9e3779b97f4a7c15u64;
+        let mut next = || {
+            st ^= st << 13;
+            st ^= st >> 7;
+            st ^= st << 17;
+            st
+        };
+        for w in [1usize, 2, 3, 7, 8, 31, 32, 33, 63, 64, 65, 100, 127, 128, 129, 191, 192, 193, 200, 256, 300] {
+            for round in 0..60 {
+                let mut mk = |style: u64| -> Vec<Bit> {
+                    (0..w)
+                        .map(|i| match style % 5 {
+                            0 => Bit::from_bool(next() & 1 == 1),
+                            1 => One,
+                            2 => Bit::from_bool(i == w - 1),
+                            3 => Bit::from_bool(i % 64 == 63 || i % 64 == 0),
+                            _ => Bit::from_bool(next() % 7 == 0),
+                        })
+                        .collect()
+                };
+                let a = mk(round);
+                let b = mk(round / 5);
+                assert_eq!(V::add_raw(&a, &b, false), V::add_serial(&a, &b, false), "add w={w}");
+                assert_eq!(V::add_raw(&a, &b, true), V::add_serial(&a, &b, true), "add+1 w={w}");
+                assert_eq!(V::neg_raw(&a), V::neg_serial(&a), "neg w={w}");
+                assert_eq!(V::mul_raw(&a, &b), V::mul_serial(&a, &b), "mul w={w}");
+                if b.iter().any(|x| *x == One) {
+                    assert_eq!(V::divmod_raw(&a, &b), V::divmod_serial(&a, &b), "divmod w={w} a={a:?} b={b:?}");
+                }
+            }
+        }
     }
     #[test]
     fn shifts() {
